@@ -52,12 +52,23 @@ CHECKS = {
             "pkg": ODB, "funcs": ["VerifC18Drop"],
             "params": {"quick": {"L": 1}, "thorough": {"L": 2}},
             "covers": {"VerifC18Drop": ["created", "dropped", "instance-closed"]},
+        }, {
+            "pkg": BS, "funcs": ["VerifC18CloseBlockedLoad"],
+            "covers": {"VerifC18CloseBlockedLoad": ["load-stuck", "closed"]},
+        }, {
+            "pkg": ODB, "funcs": ["VerifSysClose"],
+            "params": {"quick": {"N": 1, "FULL": 0}, "thorough": {"N": 2, "FULL": 1}},
+            "max_paths": {"quick": 100000, "thorough": 400000},
+            "timeout": {"quick": "15m", "thorough": "90m"},
+            "covers": {"VerifSysClose": ["idle", "mid-replication", "mid-write", "parent-cancelled-first", "closed", "later-returned", "reopened"]},
         }],
         "assumptions": [
             "a real BaseStore with replication enabled over stubs; Close is issued by a concurrent thread at ANY visible operation (lock, channel operation, goroutine start, block/cache effect) of a local write, of a replication (real Sync/replicator/fetcher/Join) or of a Load, or when idle; then Close is repeated 1..2 times; then one later operation (write, load, sync, close)",
             "leak check: at quiescence (decided from the scheduler state) no interpreter thread whose function belongs to go-orbit-db/stores is alive; a thread blocked for ever counts as alive; a main thread blocked for ever is reported as a deadlock",
             "stub contracts: the pubsub topic's watch channels are closed when their context ends; the event bus delivers under its read lock and Subscription.Close drains concurrently (as libp2p's eventbus)",
             "Drop: a real orbitDB instance with two event logs over the real cache manager (cacheleveldown) on a disk model (one store per directory path, os.RemoveAll removes by prefix); names symbolic",
+            "blocked load: a store is closed (once or twice) while a Load of it is stuck on a block no reachable peer provides and the caller's context is still live; Close must return without waiting for the load",
+            "instance level (VerifSysClose): two real orbitDB instances with two databases over the simulated network; the whole instance of b (orbitDB.Close: stores, direct channel, caches, emitters) or one of its stores is closed at ANY visible operation of a cross-instance replication (head exchange on join over the direct channel, fetches, joins) or of a local write, or when idle; optionally the context the instance was created with is cancelled BEFORE Close; Close repeated; a later operation (write / load / sync / store close / open + close) returns; with the other instance closed too no thread of go-orbit-db/stores or go-orbit-db/baseorbitdb is left; a new instance on the same directory reopens both databases with every acknowledged entry (after a mid-activity close the post-close choices are explored in full only in the thorough tier)",
         ],
         "outside": ["goroutines, file handles and timers inside leveldb, libp2p, kubo, the real eventbus", "OS-level directory removal", "Close racing with two or more other operations at once"],
     },
@@ -201,11 +212,17 @@ CHECKS = {
             "params": {"quick": {"STEPS": 3}, "thorough": {"STEPS": 4}},
             "max_paths": {"quick": 60000, "thorough": 400000},
             "covers": {"VerifC05Crash": ["local-write", "replicated-event", "recovered"]},
+        }, {
+            "pkg": ODB, "funcs": ["VerifC05Reopen"],
+            "params": {"quick": {"CYCLES": 2}, "thorough": {"CYCLES": 3}},
+            "max_paths": {"quick": 60000, "thorough": 400000},
+            "covers": {"VerifC05Reopen": ["attempt-failed", "by-address", "by-name", "reopened"]},
         }],
         "assumptions": [
             "history of STEPS steps on one store, each a local write (symbolic payload) or a real replication of a batch written by a remote writer (Sync -> replicator -> fetcher -> Join -> cache write -> EventReplicated)",
             "the store's block store and cache append every mutation to ONE ordered effect log; each effect is durable once its call returns (as the property assumes)",
             "acknowledgement instants: return of AddOperation, emission of EventReplicated (observed synchronously in the emitting goroutine); crash index = a symbolic integer over [0, #effects]; recovered disk = that prefix; fresh store + real Load(-1)",
+            "clean close / reopen cycles at instance level (VerifC05Reopen): a real orbitDB instance over the real cache manager (cacheleveldown) on the disk model creates a database by name, writes, closes; CYCLES times a new instance on the same directory reopens it by address or by name with Create (the path of the Log / KeyValue / Docs helpers: Create with Overwrite), optionally after an attempt that failed (DAG unreachable while the manifest is read, cancelled context, unregistered store type) and optionally an instance restart after the failure; Load(-1) must yield exactly the acknowledged entries, and a further write succeeds",
         ],
         "outside": ["durability of leveldb / flatfs themselves, torn writes", "identity persistence across restart (keystore on leveldb is not encodable; the harness reuses the identity)", "crashes during concurrent writers (C17 decides the write path's atomicity)"],
     },
@@ -428,7 +445,7 @@ CHECKS = {
             "funcs": ["VerifC19Step", "VerifC19Rest", "VerifC19History"],
             "params": {"quick": {"STEPS": 3}, "thorough": {"STEPS": 5}},
             "max_paths": {"quick": 20000, "thorough": 200000},
-            "covers": {"VerifC19Step": ["max", "status"], "VerifC19Rest": ["update", "no-update"], "VerifC19History": ["history", "reloaded"]},
+            "covers": {"VerifC19Step": ["max", "status"], "VerifC19Rest": ["update", "no-update"], "VerifC19History": ["history", "reloaded", "snapshot-saved", "snapshot-loaded", "fresh-from-snapshot"]},
         }, {
             "pkg": ODB, "funcs": ["VerifSysTwoDBs"],
             "params": {"quick": {"N": 2}, "thorough": {"N": 3}},
@@ -438,7 +455,7 @@ CHECKS = {
             "inductive step: pre-state is ANY (progress, max, log length) with 0 <= progress <= max < 2^62, 0 <= length < 2^62; argument 0 <= x < 2^62",
             "entry points encoded: recalculateReplicationMax (main loop EventLoadAdded, LoadFromSnapshot) and recalculateReplicationStatus (AddOperation, Load, replicationLoadComplete, EventLoadProgress); recalculateReplicationProgress is only ever called from recalculateReplicationStatus",
             "oplog is a stub exposing only Len() (symbolic); replicationInfo is the real type",
-            "history harness: two writers with concurrent branches, STEPS steps of local write / real Sync in any order, the real main loop, replicator and replicationLoadComplete update the status; checked at quiescence after every step and after reopen + Load",
+            "history harness: two writers with concurrent branches, STEPS steps of local write / real Sync in any order / SaveSnapshot / LoadFromSnapshot into the open store (which may be ahead of the snapshot by then); the real main loop, replicator and replicationLoadComplete update the status; checked at quiescence after every step, after reopen + Load, and on a fresh store that loads the snapshot",
         ],
         "outside": ["values >= 2^62", "Reset() on Close (the property says 'while open')",
                     "that every update site passes a Lamport time / entry count (covered by reading; each site calls one of the encoded entry points)"],
